@@ -51,6 +51,20 @@ def run(rep, tier, seed):
                 rrs.append(rng.choice(rrs))              # identical rule twice
             else:
                 rrs.append(ruledrv.rule_recipe(rng, doc, maxlen=3))
+        if rng.random() < 0.06:
+            # a failing node far down a long path / under a long key: the report must still name it in full
+            keys = [rng.choice([gen.LONG, "a", 0, "b", 1, gen.LONG + "x", "", 2]) for _ in range(rng.choice([2, 5, 7, 9]))]
+            leaf = rng.choice([0, "x", None, [1]])
+            sub = leaf
+            for k in reversed(keys):
+                sub = {k: sub} if not (isinstance(k, int) and not isinstance(k, bool)) else [0] * k + [sub]
+            top = rng.choice(["deep", gen.LONG])
+            doc = dict(doc, **{top: sub}) if isinstance(doc, dict) else list(doc) + [sub]
+            head = [("prim", top)] if isinstance(doc, dict) else [("prim", len(doc) - 1)]
+            L = lambda fn, *a: ("leaf", {"datum": "value", "pre": "none", "fn": fn, "actuals": list(a), "akw": {}})   # noqa: E731
+            rrs = rrs[:3] + [{"rparts": head + [("prim", k) for k in keys], "cond": rng.choice([L("equal_to", 1), L("is_instance", dict), L("greater_than", 5)]), "cast": None}]
+            rng.shuffle(rrs)
+            n = len(rrs)
         if rng.random() < 0.35:
             doc, extra = confusable(rng, doc)
             rrs = (rrs + extra)[-6:] if extra else rrs
